@@ -38,7 +38,8 @@ CHECKS = {
             "length by induction; the last executed opcode is an unconstrained integer, so every opcode (not only those the tests happen to "
             "produce) is classified; the post-state and the log are compared with a reference transition. Function attribution is checked on "
             "frames recorded from the running interpreter; the whole recorded workload (real code objects, real f_lasti) is replayed through "
-            "the real tracer for every single-code filter; a new frame allocated at a dead frame's address must be traced as a new call.",
+            "the real tracer for every single-code filter (the workload includes two modules with byte-identical source, whose code objects "
+            "compare equal); a new frame allocated at a dead frame's address must be traced as a new call.",
             TRUST + "The model of which events CPython delivers is an environment contract, validated natively on every run (exit 2 if it "
             "disagrees). Async generators, throw()/close() on suspended generators, C frames and threads are outside the claim.", "DESIGN.md#C02"),
     "C18": (True, "model_checking",
@@ -66,8 +67,9 @@ CHECKS = {
             "(the solver finds e.g. '__main__\\x00' against a prefix test); the default filter is compared with an independent string-based "
             "predicate on all file names composed from library roots, textual siblings, a directory link to a root, a user file that is a link "
             "into the standard library, components and allow-lists (incl. the working directory's own name) within the bound; code objects "
-            "that die and are re-allocated at the same address keep independent verdicts.",
-            TRUST + "lru_cache staleness of the default filter and enumeration of all installed code objects are outside the claim.", "DESIGN.md#C17"),
+            "that die and are re-allocated at the same address keep independent verdicts; identical source loaded from a library file and from a "
+            "user file (equal code objects) is judged per file by the shipped filter with its memoisation, in both orders.",
+            TRUST + "Staleness of the default filter's memo when MONKEYTYPE_TRACE_MODULES changes inside one process and enumeration of all installed code objects are outside the claim.", "DESIGN.md#C17"),
     "C07": (True, "model_checking",
             "symbolic execution of every shipped rewriter on tape-decoded types (CrossHair+z3), max_union_len symbolic; admits/trigger oracles",
             "Every shipped rewriter, the default chain and all ordered pairs are executed symbolically on unions over arbitrary member subsets "
